@@ -179,12 +179,12 @@ def run_shard(pid, tier, seed, shard, nshards, outdir):
                 st["violations"].append({"bucket": v.bucket, "detail": v.detail[:2000], "case": case, "shrunk": False})
                 session_excluded.add(v.bucket)
 
-    # replay tier (shard 0 only)
-    if shard == 0:
+    # replay tier (saved failures and regression corpus, dealt out over the shards)
+    if True:
         rdir = os.path.join(VERIF, "replays", pid)
         if os.path.isdir(rdir):
-            for fn in sorted(os.listdir(rdir)):
-                if not fn.endswith(".json"):
+            for ri, fn in enumerate(sorted(f_ for f_ in os.listdir(rdir) if f_.endswith(".json"))):
+                if ri % nshards != shard:
                     continue
                 with open(os.path.join(rdir, fn)) as f:
                     rp = json.load(f)
